@@ -29,6 +29,7 @@ TxnOutcomeKinds(r) ==              \* exactly one of the five outcomes; never (n
         \/ IsReject(c.outcome)
         \/ c.outcome = "not-selected" /\ (EndsGeneration(r) \/ r.kind = "b2")   \* refused: the session was no longer Selected
         \/ c.outcome = "nilnil"                                  \* judged by TxnNeverNilNil
+        \/ c.outcome = "write-error" /\ EndsGeneration(r)        \* the write itself failed on the dying socket (connection-closed family)
 
 TxnNeverNilNil(r) == \A i \in 1..Len(r.calls) : r.calls[i].outcome /= "nilnil"
 
